@@ -42,6 +42,9 @@ func TestSim(t *testing.T) {
 		t.Skipf("no world for property %q", c.Prop)
 	}
 	if path := os.Getenv("VERIF_REPLAY"); path != "" {
+		if out := os.Getenv("VERIF_OUT"); out != "" {
+			kernel.StartWatchdog(out+".hang", func() string { return "replay of " + path })
+		}
 		ok, o, rf, err := kernel.ReplayMain(t, world, path)
 		if err != nil {
 			fmt.Printf("REPLAY-ERROR %v\n", err)
